@@ -258,6 +258,8 @@ func (h c13impl) Unary(ctx context.Context, md protoreflect.MethodDescriptor, in
 }
 
 func (h c13impl) Stream(md protoreflect.MethodDescriptor, ss grpc.ServerStream) error {
+	// every streaming call ends with trailer metadata of the handler's own
+	ss.SetTrailer(metadata.Pairs("x-vf-handler-trailer", "c13"))
 	switch md.Name() {
 	case "Bidi", "CS":
 		var kept []proto.Message
@@ -490,6 +492,8 @@ type c13env struct {
 	pstd *svc.Std
 	pmux *larking.Mux
 	pcc  *grpc.ClientConn
+	// pccL: client of the proxying mux with the small send limit
+	pccL *grpc.ClientConn
 	// listener addresses for the WebSocket lanes
 	addr, paddr string
 }
@@ -996,6 +1000,50 @@ func bidiOver(cc *grpc.ClientConn, full string, id string, size int, lr *rand.Ra
 		}
 	}
 	st.CloseSend()
+	if mode == "client-cancels-mid-download" {
+		// read the first reply, then go away while the back-end still has
+		// replies and its trailers to deliver
+		err := st.RecvMsg(vschema.NewMsg(vschema.Msg("vf.Chunk")))
+		cancel()
+		if err != nil {
+			return fmt.Sprintf("grpc-go recv 0/%d: %v", k, err)
+		}
+		for st.RecvMsg(vschema.NewMsg(vschema.Msg("vf.Chunk"))) == nil {
+		}
+		return ""
+	}
+	if mode == "reply-over-send-limit" {
+		// the gateway's send limit (sendLimit) refuses replies the back-end
+		// is entitled to send: the call must end with an error, not wedge;
+		// replies within the limit must arrive intact
+		n := 0
+		for {
+			out := vschema.NewMsg(vschema.Msg("vf.Chunk"))
+			err := st.RecvMsg(out)
+			if err == nil {
+				gid, gseq, gdata := chunkFields(out)
+				if gid != id || int(gseq) != n || !bytes.Equal(gdata, prf(fmt.Sprintf("%s/%d", id, n), size/k)) {
+					return fmt.Sprintf("echo %d is not a function of the request: got id=%s seq=%d len=%d", n, gid, gseq, len(gdata))
+				}
+				n++
+				continue
+			}
+			if ctx.Err() != nil {
+				return "WEDGED"
+			}
+			over := size/k+len(id)+16 > sendLimit
+			within := size/k+len(id)+32 <= sendLimit
+			switch {
+			case err == io.EOF && over:
+				return fmt.Sprintf("replies of %d+ bytes passed a %d-byte send limit", size/k, sendLimit)
+			case err == io.EOF && n != k:
+				return fmt.Sprintf("stream ended cleanly after %d of %d replies", n, k)
+			case err != io.EOF && within:
+				return fmt.Sprintf("replies of about %d bytes within the %d-byte send limit ended in %v", size/k, sendLimit, err)
+			}
+			return ""
+		}
+	}
 	if mode == "backend-fails" {
 		for {
 			err := st.RecvMsg(vschema.NewMsg(vschema.Msg("vf.Chunk")))
@@ -1152,7 +1200,25 @@ func wsDuplex(addr, prefix, id string, size int, lr *rand.Rand) string {
 	return ""
 }
 
+// sendLimit is the MaxSendMessageSizeOption of the second proxying mux.
+const sendLimit = 8192
+
 var proxyLanes = []lane{
+	{"proxy/grpc-bidi-client-cancels-mid-download", func(e *c13env, id string, size int, lr *rand.Rand) string {
+		return bidiOver(e.pcc, e.pstd.Full("Bidi"), id, size, lr, "client-cancels-mid-download")
+	}},
+	{"proxy+send-limit/grpc-bidi-reply-over-send-limit", func(e *c13env, id string, size int, lr *rand.Rand) string {
+		if lr.Intn(3) != 0 && size < 3*sendLimit {
+			size = 6*sendLimit + size
+		}
+		return bidiOver(e.pccL, e.pstd.Full("Bidi"), id, size, lr, "reply-over-send-limit")
+	}},
+	{"proxy+send-limit/grpc-bidi-client-cancels-mid-download", func(e *c13env, id string, size int, lr *rand.Rand) string {
+		if size > sendLimit {
+			size = sendLimit // every message is size/k <= sendLimit/2
+		}
+		return bidiOver(e.pccL, e.pstd.Full("Bidi"), id, size, lr, "client-cancels-mid-download")
+	}},
 	{"proxy/ws-duplex", func(e *c13env, id string, size int, lr *rand.Rand) string {
 		return wsDuplex(e.paddr, "/p1", id, size, lr)
 	}},
@@ -1384,6 +1450,37 @@ func RunC13(r *mon.Run) {
 			return
 		}
 		defer pcc.Close()
+		// the same back-ends behind a gateway with a small send limit: replies
+		// the back-end may send are refused on their way to the client, so the
+		// client side of a proxied stream fails while the back-end side is
+		// still live
+		pmuxL, err := larking.NewMux(larking.MaxSendMessageSizeOption(sendLimit))
+		if err != nil {
+			r.Inconclusive("harness: " + err.Error())
+			return
+		}
+		for _, b := range []*backend.Backend{be, be2} {
+			rctx, rcancel := context.WithTimeout(context.Background(), 20*time.Second)
+			err = pmuxL.RegisterConn(rctx, b.CC)
+			rcancel()
+			if err != nil {
+				r.Inconclusive("harness: RegisterConn: " + err.Error())
+				return
+			}
+		}
+		psrvL, err := wire.StartLarking(pmuxL, nil)
+		if err != nil {
+			r.Inconclusive("harness: " + err.Error())
+			return
+		}
+		defer psrvL.Close()
+		pccL, err := wire.Dial(psrvL.Addr, grpc.WithDefaultCallOptions(grpc.MaxCallRecvMsgSize(1<<26), grpc.MaxCallSendMsgSize(1<<26)))
+		if err != nil {
+			r.Inconclusive("harness: " + err.Error())
+			return
+		}
+		defer pccL.Close()
+		env.pccL = pccL
 		env.pstd, env.pmux, env.pcc, env.paddr = pstd, pmux, pcc, psrv.Addr
 		allLanes = append(allLanes, proxyLanes...)
 		defer func() {
